@@ -57,7 +57,8 @@ Definition view_variant (k : kind) (fallible : bool) (ty : type_path) (v : varia
 Inductive dview := VStruct (s : sview) | VEnum (vs : list vview) (ghosts : option ghosts_core).
 
 Record tview := {
-  tv_ident : string; tv_generics : list gparam; tv_data : dview; tv_where : option where_attr }.
+  tv_ident : string; tv_generics : list gparam; tv_data : dview; tv_where : option where_attr;
+  tv_own_where : list (list tok) }.
 
 Definition view_type (k : kind) (fallible : bool) (ty : type_path) (d : data_type) : tview :=
   {| tv_ident := dt_ident d; tv_generics := dt_generics d;
@@ -65,7 +66,8 @@ Definition view_type (k : kind) (fallible : bool) (ty : type_path) (d : data_typ
                 | DStruct s => VStruct (view_struct k fallible ty s)
                 | DEnum e => VEnum (map (view_variant k fallible ty) (e_variants e)) (ghosts_attr_for (e_attrs e) ty k)
                 end;
-     tv_where := where_attr_for (dt_get_attrs d) ty |}.
+     tv_where := where_attr_for (dt_get_attrs d) ty;
+     tv_own_where := dt_where d |}.
 
 (* ---------------- impl context ---------------- *)
 Inductive impl_type := ITStruct | ITEnum | ITVariant.
@@ -851,6 +853,16 @@ Definition print_where (w : option where_attr) : list tok :=
   | None => []
   end.
 
+(* `where #own, #instr`: the item's own predicates first, then those of the applicable #[where_clause] *)
+Fixpoint join_preds (l : list (list tok)) : list tok :=
+  match l with [] => [] | [p] => p | p :: r => p ++ [comma] ++ join_preds r end.
+Definition print_where_all (own : list (list tok)) (w : option where_attr) : list tok :=
+  match own, w with
+  | [], _ => print_where w
+  | _, None => TIdent "where" :: join_preds own
+  | _, Some a => TIdent "where" :: join_preds own ++ [comma] ++ join_preds (wa_preds a)
+  end.
+
 Definition trait_env (t : tview) (c : ictx) : env :=
   let these_lts := flat_map (fun g => if gp_is_lt g then [gp_name g] else []) (tv_generics t) in
   let those_lts := angle_lts (tp_generics (c_ty c)) in
@@ -868,7 +880,7 @@ Definition trait_env (t : tview) (c : ictx) : env :=
    ("these_gens", print_type_generics (tv_generics t));
    ("those_gens", match tp_generics (c_ty c) with Some a => print_angle a | None => [] end);
    ("impl_gens", print_impl_generics gens2);
-   ("where_clause", print_where (tv_where t));
+   ("where_clause", print_where_all (tv_own_where t) (tv_where t));
    ("r", if is_ref (c_kind c) then (match ref_lts with [] => [P1 "&"] | _ => P1 "&" :: lifetime "o2o" end) else [])].
 
 Definition err_env (c : ictx) : res env :=
